@@ -167,8 +167,16 @@ def run(tier):
         cases.append(common.Case("c02-s%d" % ti, ["HOOK trace 1", "HOOK exact 1"], ops, {"table": t, "kind": "sweep"}))
     # wide generated tables (all opcode families, backward rules incl. nofor multipass/match/swap), cells of the rules
     cases += st.wide_cases(rng, 200 if tier == "quick" else 3000, per_table=4, back=True, exact=True, tag="c02w", budget=3000000)
+    # composite generated tables (translation rules between correct and pass2-4 stages whose rules lengthen and shorten),
+    # inputs built from the rules' own literals, exact-size caller arrays, capacities around every stage's length; the
+    # whole call is also computed by the model alone (MCALL)
+    cases += st.composite_cases(rng, 150 if tier == "quick" else 3000, per_table=8, tag="c02wc", exact=True)
     calls = st.run_and_trace(exe, cases, timeout=300)
     calls += st.run_and_trace(exe, hist_cases, timeout=300, batch=1)
+    wdist = {}
+    whole_bad = st.compare_whole(calls, wdist)
+    v.obligation("correspondence: the model alone (driver + main-pass + stage models) computes the whole result of every call "
+                 "on composite generated tables", not whole_bad, "\n".join(whole_bad[:3]))
     common.run_cases(exe, conv_cases + hyp_cases, batch=4, timeout=300)
     allc = cases + hist_cases + conv_cases + hyp_cases
     nfault = 0
@@ -253,6 +261,7 @@ def run(tier):
         if len(v.cov["samples"]) < 5 and t[0] == "BWD":
             v.sample({"op": k.op[:240], "result": k.line.split(" | ")[0][:200]})
     v.cov["traces_validated_against_impl"] = sum(1 for k in calls if k.trace_ok is not None)
+    dist.update(wdist)
     v.cov["distribution"] = dist
     v.cov["rule"] = ("backward calls under ASan+UBSan with exact-size caller arrays and exact scratch (H1) on %d tables: real "
                      "forward output (also truncated / with undefined cells appended), random cells, arbitrary 16-bit values, "
